@@ -27,6 +27,21 @@ sys.setrecursionlimit(20000)
 
 import amaranth_soc  # noqa: E402
 
+if os.environ.get("VMON_WARNINGS_AS_ERRORS"):
+    # `python -W error` for the library under test only: a warning issued by a statement of amaranth_soc is raised as an
+    # exception at that statement (everything else - Amaranth's and the harness's own warnings - stays ignored)
+    _soc_dir = os.path.join(REPO, "amaranth_soc") + os.sep
+    _orig_warn = warnings.warn
+
+    def _warn(message, category=None, stacklevel=1, *args, **kwargs):
+        if os.path.realpath(sys._getframe(1).f_code.co_filename).startswith(_soc_dir):
+            if isinstance(message, Warning):
+                raise message
+            raise (category or UserWarning)(message)
+        return _orig_warn(message, category, stacklevel + 1, *args, **kwargs)
+
+    warnings.warn = _warn
+
 _real = os.path.realpath(amaranth_soc.__file__)
 if not _real.startswith(REPO + os.sep):
     raise SystemExit(f"INCONCLUSIVE amaranth_soc imported from {_real}, not from {REPO}")
